@@ -171,6 +171,12 @@ impl Insert {
                 // TODO: Validate foreign keys.
             }
         }
+        // Empty strings are stored as null, so compare and order keys that way.
+        let new_rows: Vec<Vec<Value>> = self
+            .new_rows
+            .into_iter()
+            .map(|values| values.into_iter().map(Value::into_stored).collect())
+            .collect();
         // Read in the rows from the table.
         let stream_name = table.stream_name();
         let key_indices = table.primary_key_indices();
@@ -196,7 +202,7 @@ impl Insert {
         // Check if any of the new rows already exist in the table (or conflict
         // with each other).
         let mut new_keys_set = HashSet::<Vec<Value>>::new();
-        for values in self.new_rows.iter() {
+        for values in new_rows.iter() {
             let keys: Vec<Value> = key_indices
                 .iter()
                 .map(|&index| values[index].clone())
@@ -217,7 +223,7 @@ impl Insert {
             new_keys_set.insert(keys);
         }
         // Insert the new rows into the table.
-        for values in self.new_rows.into_iter() {
+        for values in new_rows.into_iter() {
             let keys: Vec<Value> = key_indices
                 .iter()
                 .map(|&index| values[index].clone())
